@@ -6,6 +6,7 @@ CONSTANTS
   Retention = 1
   MinDelay = 0
   QScale = "1"
+  Deep = FALSE
 INIT Init
 NEXT Next
 CHECK_DEADLOCK FALSE
